@@ -595,6 +595,14 @@ def b_contract(P, s, a, b, c, name):
             order = [("x", 0), ("p", i)]
         return dict(f=lambda x, y: fn(x, y), ops=order, extra=[("fresh", w)], klass="contract", contract="mm")
     if name == "bmm":
+        if isinstance(t, QBytesTensor) and t.qtype.name == "qint8" and c % 2 == 0:
+            # the integer bmm path needs two qint8 operands: give a qint8 first operand (per-tensor or per-axis) a per-tensor
+            # qint8 partner, square in its last two dims every other time (a misplaced scale then broadcasts silently)
+            pp = k if c % 4 == 0 else p
+            xw = _values([t.shape[0], k, pp], dtype, 6450 + c, 1.0)
+            sw = absmax_scale(xw, t.qtype)
+            w = quantize_activation(xw, t.qtype, torch.where(sw > 0, sw, torch.ones_like(sw)))
+            return dict(f=lambda x, y: torch.bmm(x, y), ops=[("p", i), ("x", 0)], extra=[("fresh", w)], klass="contract", contract="mm")
         w = fresh_partner([t.shape[0], k, p], dtype, a, 6400 + c)
         return dict(f=lambda x, y: torch.bmm(x, y), ops=[("p", i), ("x", 0)], extra=[("fresh", w)], klass="contract", contract="mm")
     if name == "matmul":
